@@ -274,3 +274,25 @@ func init() {
 		Assumptions: []string{"MARSHAL, C14N and SHA256 are injective on the contents considered (collision freedom is not a solver's business)"},
 	})
 }
+
+func init() {
+	reg(&propCfg{
+		ID:      "C10",
+		Pkgs:    []string{"."},
+		Lenient: []string{".", "head", "dsig", "schema", "uuid", "cbc", "internal"},
+		Stages:  []stage{{Name: "lifecycle", Harness: `^H_C10_`}},
+		Functions: []string{"gobl.(*Envelope).Calculate/calculate", "gobl.(*Envelope).Sign", "gobl.(*Envelope).Unsign", "gobl.(*Envelope).Signed", "gobl.(*Envelope).Validate/ValidateWithContext", "gobl.(*Envelope).verifyDigest", "gobl.(*Envelope).Verify/verifySignature",
+			"head.(*Header).ValidateWithContext", "head.(*Header).AddStamp / head.AddStamp", "head.detectDuplicateStamps", "head.(*Stamp).Validate", "head.(*Header).Contains", "dsig.(*Digest).Validate/Equals", "internal.SignedContext / IsSigned", "uuid.versionRule.Validate"},
+		Stubs: []string{"document = abstract content token: json.Marshal / c14n / sha256 injective uninterpreted functions (as C08)",
+			"schema.Object.Calculate succeeds; schema.Object.ValidateWithContext = harness flags (valid, valid-once-signed; all four combinations)",
+			"dsig.PrivateKey.Sign: a signature carrying a JWS, bound to the key's public half and to a deep copy of the header as it is at that moment; VerifyPayload / UnsafePayload per the JWS contract",
+			"github.com/invopop/validation: model of its reflective struct walker and value dispatcher (engine/interp/validation.go); rule code runs for real",
+			"native replays: real note.Message documents, real ES256 keys and signatures"},
+		Bounds: map[string][]string{
+			"quick":    {"histories of 3 operations drawn from {calculate, edit document, sign key 0, sign key 1, unsign, stamp pa (symbolic value, overwrites), stamp pb, validate, verify} from a calculated or uncalculated start, followed by a final validate and verify; content tokens symbolic in 0..2"},
+			"thorough": {"histories of 4 operations"},
+		},
+		Outside:     []string{"histories longer than the bound (no inductive argument is made)", "links, tags, meta and notes in the header (their containment is decided in C09)", "parsing an envelope from JSON (signature list with empty entries: see C14 for the panic side)", "insert of arbitrary documents, the code-required-when-signed rule of invoices (represented only by the valid-once-signed flag)"},
+		Assumptions: []string{"JWS contract; injectivity of marshal / c14n / sha256"},
+	})
+}
